@@ -1,0 +1,9 @@
+//go:build verif
+
+package blockwise
+
+// VerifSizes returns the number of entries in the receiving and sending caches
+// (verification harness only).
+func (b *BlockWise[C]) VerifSizes() (receiving int, sending int) {
+	return b.receivingMessagesCache.Length(), b.sendingMessagesCache.Length()
+}
